@@ -49,7 +49,9 @@ def run(ctx):
     return core.finish(ctx)
 
 
-def run_cfg(ctx, fx):
+def check_child_table_access(ctx, fx, RULE="R16.1"):
+    """the child table lives in the one Context an actor is born with and is only ever added to: it is touched by
+    add_child / register_child / send_to_children alone, a Context is constructed in one place, nothing removes entries"""
     # R16.1 who touches Context.children
     touch = {}
     for f in fx.d["fns"]:
@@ -71,18 +73,22 @@ def run_cfg(ctx, fx):
         wf = fx.fn(w)
         if wf is not None and w not in touch and any((t.get("resolved") or t.get("callee")) in WRITERS for _, t in ctx.body(fx, wf).normal_calls()):
             delegating.add(w)
-    ctx.floor("R16.1", "functions touching Context.children", len(touch) + len(delegating), 3)
+    ctx.floor(RULE, "functions touching Context.children", len(touch) + len(delegating), 3)
     for fn_, locs in sorted(touch.items()):
         root = fx.fn(fn_).get("root", fn_)
-        ctx.require(root in WRITERS, "R16.1", "access:" + fn_, "the child table is accessed outside add_child / register_child / send_to_children", fn=fn_, site=locs[0], detail={"sites": len(locs)})
-    ctx.require(len(ctors) == 1, "R16.1", "context-constructors", "Context is constructed in %s (expected exactly the environment's constructor)" % sorted(ctors), detail=sorted(ctors))
+        ctx.require(root in WRITERS, RULE, "access:" + fn_, "the child table is accessed outside add_child / register_child / send_to_children", fn=fn_, site=locs[0], detail={"sites": len(locs)})
+    ctx.require(len(ctors) == 1, RULE, "context-constructors", "Context is constructed in %s (expected exactly the environment's constructor)" % sorted(ctors), detail=sorted(ctors))
     for w in sorted(WRITERS):
-        if not ctx.require(fx.fn(w) is not None, "R16.1", "exists:" + w, "%s not found" % w):
+        if not ctx.require(fx.fn(w) is not None, RULE, "exists:" + w, "%s not found" % w):
             continue
         for f in graph.family(fx, w):
             b = ctx.body(fx, f)
             bad = [(t["callee"], t["l"]) for _, t in b.normal_calls() if (t.get("callee") or "").endswith(REMOVERS) and ("HashMap" in (t.get("self_ty") or "") or "Vec" in (t.get("self_ty") or "") or "hash_map" in (t.get("callee") or "") or "vec::" in (t.get("callee") or ""))]
-            ctx.require(not bad, "R16.1", "no-removal:" + f["def"], "children are removed from the table: %s" % bad, fn=f["def"], site=f["loc"])
+            ctx.require(not bad, RULE, "no-removal:" + f["def"], "children are removed from the table: %s" % bad, fn=f["def"], site=f["loc"])
+
+
+def run_cfg(ctx, fx):
+    check_child_table_access(ctx, fx)
     # R16.2 what is stored, under which key
     for w, expect_m in (("context::Context::<A>::add_child", "()"), ("context::Context::<A>::register_child", "M")):
         f = fx.fn(w)
